@@ -703,12 +703,50 @@ def gen_general(rnd, pool):
     return {"fam": "gen", "src": "\n".join(lines) + "\n", "opts": opts}
 
 
+def gen_big(rnd, k):
+    """large tables over long (seeded-hash) string keys: many doublings with every chain occupancy; insertion,
+    membership right after insertion, deletion and re-insertion, set algebra.  Any dependence of the table's
+    behaviour on the bucket layout shows as a difference between processes (whose hash seeds differ)."""
+    J, N = rnd.choice([(40, 230), (25, 420), (60, 120)])
+    tag = "".join(rnd.choice("abcdefghij") for _ in range(6))
+    src = """def build(j, n):
+    d = {}
+    miss = 0
+    for i in range(n):
+        k = "dictionary-%s-key-%%d-%%d" %% (j, i)
+        d[k] = i
+        if k not in d or d.get(k) != i:
+            miss += 1
+    return d, miss
+total, misses, odd = 0, 0, []
+for j in range(%d):
+    d, m = build(j, %d)
+    misses += m
+    total += len(d)
+    s = set(d.keys())
+    for k in list(d.keys())[::7]:
+        d.pop(k)
+    for i in range(0, %d, 5):
+        d["dictionary-%s-key-%%d-%%d" %% (j, i)] = -i
+    total += len(d) + len(s | set(d.keys())) + len(s & set(d.keys()))
+    if len(d) != len(set(d.keys())) or m:
+        odd.append((j, len(d), m))
+print(total, misses, odd)
+result = (total, misses, odd)
+""" % (tag, J, N, N, tag)
+    return {"fam": "gen", "src": src, "opts": dict(ALL_ON)}
+
+
 def generate(ctx):
     rnd = random.Random(ctx.seed)
     pool = build_pool(rnd)
     header = build_header(rnd, pool)
     n = int(os.environ.get("VERIF_C03_N", "0")) or (320 if ctx.quick else 5000)   # VERIF_C03_N: smaller corpora for mutation runs
     progs, seen = [], set()
+    for k in range(6 if ctx.quick else 40):
+        p = gen_big(rnd, k)
+        p["id"] = len(progs) + 1
+        progs.append(p)
     while len(progs) < n:
         r = rnd.random()
         p = gen_ord(rnd, pool) if r < 0.40 else (gen_feat(rnd, pool) if r < 0.72 else gen_general(rnd, pool))
